@@ -65,7 +65,7 @@ def tasks(tier, seed):
     rng = random.Random(seed)
     rng.shuffle(shapes)
     for sh in shapes[: (10 if quick else 60)]:
-        for mode in ('plain', 'recomputed', 'recomputed-all-types'):
+        for mode in ('plain', 'recomputed', 'recomputed-all-types', 'recomputed-no-key'):
             T.append(('filter', sh[0], sh[1], mode))
     T.append(('filter_flagged', 3))
     T.append(('types', n_entries))
@@ -121,6 +121,12 @@ def mk_entries(types, gens):
     return keys, tv, lv, iv, distinct
 
 
+class SortedVals(list):
+    def __init__(self, vals, intact):
+        super().__init__(vals)
+        self.intact = intact
+
+
 def filter_case(rep, types, gens, mode):
     name = f'filter/{"".join(map(str, types))}/{"".join(map(str, gens))}/{mode}'
     n = len(types)
@@ -133,13 +139,18 @@ def filter_case(rep, types, gens, mode):
         for a in pre:
             c.add(a)
         stats = {k: i for i, k in enumerate(keys)}
+        before = list(stats.items())
         if mode == 'plain':
             res = filter_stats(stats, time=SymInt(qt), level=SymInt(ql), iter=None, type=TYPES[0])
         elif mode == 'recomputed':
             res = filter_stats(stats, type=TYPES[0], recomputed=False, level=SymInt(ql))
+        elif mode == 'recomputed-no-key':  # no key filter at all: only superseded records are dropped
+            res = filter_stats(stats, recomputed=False)
         else:  # no restriction to one type: the highest restart generation is taken per (time, type)
             res = filter_stats(stats, recomputed=False, level=SymInt(ql))
-        return sorted(res.values())
+        # the statistics handed in are the caller's: filtering must not change them (nor hand them back as the result)
+        intact = res is not stats and len(stats) == len(before) and all(k1 is k0 and v1 == v0 for (k0, v0), (k1, v1) in zip(before, stats.items()))
+        return SortedVals(sorted(res.values()), intact)
 
     paths = explore(fn, max_paths=20000)
     rep.paths += len(paths)
@@ -153,10 +164,14 @@ def filter_case(rep, types, gens, mode):
             match_i = z3.And(lv[i] == ql, z3.BoolVal(types[i] == 0))
             sup = [z3.And(lv[j] == ql, tv[j] == tv[i]) for j in range(n) if j != i and types[j] == 0 and gens[j] > gens[i]]
             surv.append(z3.And(match_i, z3.Not(z3.Or(sup)) if sup else z3.BoolVal(True)))
+        elif mode == 'recomputed-no-key':
+            sup = [tv[j] == tv[i] for j in range(n) if j != i and types[j] == types[i] and gens[j] > gens[i]]
+            surv.append(z3.Not(z3.Or(sup)) if sup else z3.BoolVal(True))
         else:
             match_i = lv[i] == ql
             sup = [z3.And(lv[j] == ql, tv[j] == tv[i]) for j in range(n) if j != i and types[j] == types[i] and gens[j] > gens[i]]
             surv.append(z3.And(match_i, z3.Not(z3.Or(sup)) if sup else z3.BoolVal(True)))
+    rep.side(f'{name}:argument-not-modified', all(p.result.intact for p in paths))
     for pi, p in enumerate(paths):
         got = set(p.result)
         goal = z3.And([surv[i] == z3.BoolVal(i in got) for i in range(n)])
@@ -173,7 +188,8 @@ def filter_case(rep, types, gens, mode):
                 rep.unreproduced(f'{name}/path{pi}', vals)
     r = coverage_certificate(paths, pre, name=f'{name}:coverage')
     rep.ob(f'{name}:coverage', r)
-    if 0 in types or mode == 'recomputed-all-types':
+    can_supersede = any(types[i] == types[j] and gens[i] != gens[j] for i in range(n) for j in range(n))
+    if (mode != 'recomputed-no-key' and (0 in types or mode == 'recomputed-all-types')) or (mode == 'recomputed-no-key' and can_supersede):
         rep.vac(f'{name}:several-outcomes', 'sat' if len({tuple(p.result) for p in paths}) > 1 else 'unsat', 'sat')
     rep.sample({'case': name, 'paths': len(paths), 'entries': [(TYPES[t], g) for t, g in zip(types, gens)],
                 'free_variables': 'time, level, iter of every entry; query time / level'}, limit=5)
@@ -193,6 +209,9 @@ def filter_concrete(types, gens, mode, vals):
         res = filter_stats(stats, type=TYPES[0], recomputed=False, level=vals['ql'])
         exp = sorted(i for i in range(n) if vals[f'l{i}'] == vals['ql'] and types[i] == 0 and not any(
             j != i and types[j] == 0 and gens[j] > gens[i] and vals[f'l{j}'] == vals['ql'] and vals[f't{j}'] == vals[f't{i}'] for j in range(n)))
+    elif mode == 'recomputed-no-key':
+        res = filter_stats(stats, recomputed=False)
+        exp = sorted(i for i in range(n) if not any(j != i and types[j] == types[i] and gens[j] > gens[i] and vals[f't{j}'] == vals[f't{i}'] for j in range(n)))
     else:
         res = filter_stats(stats, recomputed=False, level=vals['ql'])
         exp = sorted(i for i in range(n) if vals[f'l{i}'] == vals['ql'] and not any(
